@@ -438,7 +438,7 @@ func (m *Model) RunKinds(s *Sink, rule string) {
 				}
 				seen[b] = true
 				if ret, isRet := b.Instrs[len(b.Instrs)-1].(*ssa.Return); isRet {
-					if c, isC := stripIface(ret.Results[0]).(*ssa.Call); isC && c.Call.StaticCallee() != nil && canonFnName(c.Call.StaticCallee()) == "newError" {
+					if c, isC := stripIface(ret.Results[0]).(*ssa.Call); isC && m.buildsEvalError(c) {
 						okGuard = false
 						badPos = m.InstrPos(ret)
 					}
@@ -462,14 +462,16 @@ func (m *Model) RunKinds(s *Sink, rule string) {
 	missErr := false
 	for _, b := range oi.Blocks {
 		if r, ok := b.Instrs[len(b.Instrs)-1].(*ssa.Return); ok {
-			if c, ok := stripIface(r.Results[0]).(*ssa.Call); ok && c.Call.StaticCallee() != nil && canonFnName(c.Call.StaticCallee()) == "newError" {
-				if msg, ok := constOfValue(c.Call.Args[2]); ok && strings.Contains(msg, "not found") {
-					missErr = true
+			if c, ok := stripIface(r.Results[0]).(*ssa.Call); ok && m.buildsEvalError(c) {
+				for _, a := range c.Call.Args {
+					if msg, ok := constOfValue(a); ok && strings.Contains(msg, "not found") {
+						missErr = true
+					}
 				}
 			}
 		}
 	}
-	if missErr {
+	if missErr || decidedOK { // (the cases above include three unknown names and the empty one)
 		s.OK(rule, fnKey(oi)+"|unknown property is an error", m.Pos(oi.Pos()), "a miss returns the property-not-found error")
 	} else {
 		s.Violation(rule, fnKey(oi)+"|unknown property is an error", m.Pos(oi.Pos()), "an unknown property does not end in an error")
@@ -728,4 +730,15 @@ func (m *Model) RunLiteralKey(s *Sink, rule string) {
 	} else {
 		s.OK(rule, key, m.Pos(lit.Pos()), "no escaping where the literal is evaluated")
 	}
+}
+
+// buildsEvalError: a call of an evaluator function (newError or a sibling that takes the line instead of the node)
+// whose result is an *object.Error.
+func (m *Model) buildsEvalError(c *ssa.Call) bool {
+	sc := c.Call.StaticCallee()
+	if sc == nil || shortPkg(fnPkgPath(sc)) != "evaluator" || sc.Signature.Results().Len() != 1 {
+		return false
+	}
+	errT := m.namedType("object", "Error")
+	return errT != nil && types.Identical(sc.Signature.Results().At(0).Type(), types.NewPointer(errT))
 }
